@@ -342,6 +342,8 @@ class SockObj(object):
                 d.laddr = ""
             else:
                 k.bind(d, (d.host, 0))
+        elif d.family != _rs.AF_UNIX and d.laddr[0] in ("0.0.0.0", ""):
+            d.laddr = (d.host, d.laddr[1])      # a wildcard bind gets the outgoing interface's address on connect
         sd = Desc(k, "stream", d.family, d.type)
         sd.host = lst.host
         k.connect_pair(d, sd)
